@@ -85,11 +85,49 @@ def _invalidate_stale_asm_objects():
     return n
 
 
+def _invalidate_objects_without_deps():
+    """ninja's deps log can lose the header list of an object when a build is interrupted (it then
+    shows '#deps 0' and the object would never be rebuilt on a header change): drop such objects."""
+    if not os.path.exists(os.path.join(LIBDIR, ".ninja_deps")):
+        return 0
+    p = subprocess.run(["ninja", "-C", LIBDIR, "-t", "deps"], stdout=subprocess.PIPE, stderr=subprocess.DEVNULL, text=True)
+    n = 0
+    seen = set()
+    for l in p.stdout.splitlines():
+        if l and not l.startswith(" ") and ": #deps" in l:
+            obj, rest = l.split(": #deps", 1)
+            seen.add(obj)
+            cnt = int(rest.split(",")[0])
+            if obj.endswith(".c.o") and cnt == 0:
+                f = os.path.join(LIBDIR, obj)
+                if os.path.exists(f):
+                    os.remove(f)
+                    n += 1
+    objroot = os.path.join(LIBDIR, "lib", "CMakeFiles", "IPSec_MB.dir")
+    for root, _, files in os.walk(objroot):
+        for f in files:
+            if f.endswith(".c.o"):
+                rel = os.path.relpath(os.path.join(root, f), LIBDIR)
+                if rel not in seen:
+                    os.remove(os.path.join(root, f))
+                    n += 1
+    return n
+
+
 def build_lib():
-    """Incremental rebuild of the library from /repo's working tree (hooks on)."""
-    t0 = time.time()
+    """Incremental rebuild of the library from /repo's working tree (hooks on).
+    Serialised by a file lock: concurrent ninja runs in one build directory corrupt its logs."""
+    import fcntl
     os.makedirs(BUILD, exist_ok=True)
+    with open(os.path.join(BUILD, "lib.lock"), "w") as lk:
+        fcntl.flock(lk, fcntl.LOCK_EX)
+        return _build_lib_locked()
+
+
+def _build_lib_locked():
+    t0 = time.time()
     _invalidate_stale_asm_objects()
+    _invalidate_objects_without_deps()
     if not os.path.exists(os.path.join(LIBDIR, "build.ninja")):
         run(["cmake", "-G", "Ninja", "-S", REPO, "-B", LIBDIR, "-DCMAKE_BUILD_TYPE=RelWithDebInfo",
              "-DBUILD_LIBRARY_ONLY=ON", "-DEXTRA_CFLAGS=-D" + GUARD], check=True, timeout=600)
@@ -122,7 +160,16 @@ def build_harness(name, extra_src=(), extra_flags=()):
 
 
 def coq_make(targets, timeout=1800):
-    """make -k the given .vo targets in coq/. Returns (ok, output)."""
+    """make -k the given .vo targets in coq/. Returns (ok, output). Serialised by a file lock
+    (concurrent makes in one directory trip over each other's half-written .vo files)."""
+    import fcntl
+    os.makedirs(BUILD, exist_ok=True)
+    with open(os.path.join(BUILD, "coq.lock"), "w") as lk:
+        fcntl.flock(lk, fcntl.LOCK_EX)
+        return _coq_make_locked(targets, timeout)
+
+
+def _coq_make_locked(targets, timeout=1800):
     mk = os.path.join(COQDIR, "Makefile")
     cp = os.path.join(COQDIR, "_CoqProject")
     if not os.path.exists(mk) or os.path.getmtime(mk) < os.path.getmtime(cp):
